@@ -303,7 +303,7 @@ def masking(index: RepoIndex, rep, rule: str, pipe: Pipeline) -> None:
                 src(e.loops[-1][0]) == src(e.target.slice):
             # the loop visits exactly the cells where the visibility is false:
             # np.argwhere(np.logical_not(V)) (optionally .tolist()), zip(*np.nonzero(..))
-            it_ = src(w.expand(e.loops[-1][1], stop=[g, pipe.vis_name]))
+            it_ = src(_strip_bool_casts(w.expand(e.loops[-1][1], stop=[g, pipe.vis_name])))
             V_ = pipe.vis_name
             negs = (f'np.logical_not({V_})', f'~{V_}', f'np.invert({V_})')
             forms = [f'np.argwhere({n_})' for n_ in negs] + \
@@ -548,6 +548,28 @@ def agent_rule(index, rep, rule, pipe: Pipeline) -> None:
               rule, OBS, 'from_visibility', call.lineno, src(call),
               'the visibility function is not called on (observation grid, agent view '
               'position)', 'visibility args')
+
+
+def _strip_bool_casts(e: ast.AST) -> ast.AST:
+    """np.asarray(X[, dtype=bool]) / np.array(X, dtype=bool) / X.astype(bool) -> X: a view of
+    the same mask as booleans (the masking loop tests truthiness either way)"""
+    import copy
+
+    class T(ast.NodeTransformer):
+        def visit_Call(self, n: ast.Call):
+            self.generic_visit(n)
+            f = src(n.func)
+            kw = {k.arg: src(k.value) for k in n.keywords}
+            boolish = ('bool', 'np.bool_', 'numpy.bool_')
+            if f in ('np.asarray', 'np.array', 'np.asanyarray', 'numpy.asarray') and \
+                    len(n.args) == 1 and set(kw) <= {'dtype'} and \
+                    kw.get('dtype', 'bool') in boolish:
+                return n.args[0]
+            if isinstance(n.func, ast.Attribute) and n.func.attr == 'astype' and \
+                    len(n.args) == 1 and not n.keywords and src(n.args[0]) in boolish:
+                return n.func.value
+            return n
+    return T().visit(copy.deepcopy(e))
 
 
 def wrappers(index, rep, rule) -> None:
